@@ -11,7 +11,14 @@
 //	C  g <= gas cap (if non-zero), g <= (balance - value - blob fee)/feeCap (if a fee cap is
 //	   set), g <= params.MaxTxGas under Osaka (not Amsterdam), g <= the call's gas limit
 //	   (if >= 21000, else the block gas limit);
-//	E  if execution at the allowance cap fails, Estimate returns an error.
+//	E  if execution at the allowance cap fails, Estimate returns an error;
+//	T  (priced calls, and the cap-interaction family) a signed EIP-1559 transaction carrying
+//	   the call's fields and g as gas limit, applied with the real state transition and the
+//	   normal transaction checks against a block gas pool of the header's gas limit, is
+//	   accepted and succeeds (judge.go).
+//
+// Two families of cases: generated contract worlds (estimateCase below) and the
+// cap-interaction grid with burner callees (capgrid.go).
 //
 // The allowance cap is recomputed by the harness from these rules. "Gas-monotone" is a
 // property of the generated programs (lib/execenv: no GAS opcode, every call/create whose
@@ -38,7 +45,7 @@ import (
 func main() { vrt.Main("C37", run) }
 
 func run(r *vrt.Run) {
-	r.Rule("calls, plain transfers (also to absent accounts) and creations against 6 generated contracts (2/3 of the worlds gas-monotone by construction, the rest with GAS reads, unchecked calls and lib/proggen programs), rule sets London/Cancun/Prague/Osaka/Amsterdam, zero-price and priced messages, sender balances rich or within a few gas units of requirement*feeCap+value, gas caps absent / generous / within a few units of the true requirement, call gas limits absent or explicit, calldata up to 3 KB (floor dominated), ErrorRatio 0 or 0.015. non-trivial signature = (rule set, kind, monotone?, outcome class, refund-heavy?, floor-dominated?, which cap binds, error ratio)")
+	r.Rule("calls, plain transfers (also to absent accounts) and creations against 6 generated contracts (2/3 of the worlds gas-monotone by construction, the rest with GAS reads, unchecked calls and lib/proggen programs), rule sets London/Cancun/Prague/Osaka/Amsterdam, zero-price and priced messages, sender balances rich or within a few gas units of requirement*feeCap+value, gas caps absent / generous / within a few units of the true requirement, call gas limits absent or explicit, calldata up to 3 KB (floor dominated), ErrorRatio 0 or 0.015. non-trivial signature = (rule set, kind, monotone?, outcome class, refund-heavy?, floor-dominated?, which cap binds, error ratio). Cap-interaction family (capgrid.go): a grid rule set {London/Cancun/Prague, Osaka x3, Amsterdam} x cap meant to bind {block gas limit, call gas, EIP-7825 per-tx cap, balance/feeCap, gasCap} x relation of the true requirement to it {far below, just below, at, just above, between it and the next cap, at the next cap, above every cap}, walked cell by cell (3 rounds in quick) with the cap meant to come next rotating per round; binding cap at 5M / 2^24-e / 2^24 / 2^24+e / ~18M / 30M / 0.2-2M, other caps absent, tied, +1, a little or far above; callee = gas-monotone burner (SSTORE loop + countdown loop + JUMPDEST pad, or the same behind an all-gas CALL (63/64 rule), or a pure countdown loop for 24 cases) whose requirement is placed to the unit and measured by the harness' own search; every estimate is also applied as a signed transaction with the normal checks. signature there = (rule set, callee shape, cap that binds, requirement below / at / above only the binding cap / above several caps / never met, class of call gas, gas cap and balance allowance relative to 2^24, error ratio, outcome)")
 	n := r.N(3000, 200000)
 	if r.Race() {
 		n /= 8
@@ -46,7 +53,7 @@ func run(r *vrt.Run) {
 	// cap-interaction family (capgrid.go): nc cheap-to-execute cases walking the grid cell by
 	// cell, nh cases with a countdown-loop callee (tens of milliseconds per execution at the
 	// 2^24 scale: few, first, so that they do not form the tail of the run)
-	nc, nh := r.N(3*capCells, 60*capCells), r.N(24, 400)
+	nc, nh := r.N(3*capCells, 40*capCells), r.N(24, 400)
 	if r.Race() {
 		nc, nh = nc/8, nh/4
 	}
